@@ -60,6 +60,16 @@ func c12Expected(c c12Case) []string {
 	return caps
 }
 
+// c12Normalise: "SIZE 0" says the same as a bare "SIZE" (RFC 1870 section 4:
+// no fixed maximum message size is in force).
+func c12Normalise(caps []string) {
+	for i, l := range caps {
+		if l == "SIZE 0" {
+			caps[i] = "SIZE"
+		}
+	}
+}
+
 type c12Probe struct {
 	name  string
 	lines []string
@@ -132,6 +142,7 @@ func c12Run(c c12Case) Verdict {
 		return fail(failf("ehlo", "greeting not answered with one 250 reply: %v %v %s", codes(rs), perr, st))
 	}
 	got := append([]string(nil), rs[0].Lines[1:]...)
+	c12Normalise(got)
 	sort.Strings(got)
 	want := c12Expected(c)
 	if strings.Join(got, "|") != strings.Join(want, "|") {
@@ -306,6 +317,7 @@ func c12Run(c c12Case) Verdict {
 		c2 := c
 		c2.TLS = "upgraded"
 		got2 := append([]string(nil), rs2[0].Lines[1:]...)
+		c12Normalise(got2)
 		sort.Strings(got2)
 		if strings.Join(got2, "|") != strings.Join(c12Expected(c2), "|") {
 			return fail(failf("capabilities", "after STARTTLS, configuration %+v\nadvertised: %q\nexpected:   %q", c, got2, c12Expected(c2)))
